@@ -47,9 +47,9 @@ func onChain(n *sim.Node, m *nom.Momentum) bool {
 
 // expected outcome of delivering an honest batch to a node holding prefix+X
 type c16expect struct {
-	accept   bool   // no error, chain advances to the batch's tip
-	noop     bool   // (0, nil), nothing changes
-	refuse   bool   // error, nothing changes
+	accept   bool // no error, chain advances to the batch's tip
+	noop     bool // (0, nil), nothing changes
+	refuse   bool // error, nothing changes
 	tipOf    *sim.Node
 	tip      uint64
 	describe string
